@@ -11,6 +11,7 @@ anything else (fail closed).
 from __future__ import annotations
 
 import ast
+import re
 from dataclasses import dataclass, field
 
 from .lnodes_model import LClass
@@ -286,6 +287,8 @@ class Eval:
                 return self.prec[nm]
             if d is not None and d.split(".")[0] in ("L", "lnodes") and d.split(".")[-1] in self.classes:
                 return _ClsRef(d.split(".")[-1])
+            if d is not None and re.fullmatch(r"(L|lnodes)\.DataType\.[A-Z]+", d):
+                return "DataType." + d.split(".")[-1]
             base = self._expr(e.value, env)
             if isinstance(base, (int, float, complex)) and not isinstance(base, bool) and e.attr in ("real", "imag"):
                 return getattr(base, e.attr)
@@ -298,6 +301,9 @@ class Eval:
                     return base.cls.precedence
                 if e.attr == "op":
                     return base.cls.op
+                if e.attr == "dtype":
+                    # the sample operands of the grammar checks are real-valued unless the instance says otherwise
+                    return base.inst.get("dtype", "DataType.REAL")
                 if e.attr in base.children:
                     v = base.children[e.attr]
                     if isinstance(v, str) and v.isupper():
